@@ -1030,6 +1030,29 @@ fn run_lattice<F: FieldApi>(tr: &mut Trace, rng: &mut Rng, plan: &Plan) {
             m = Mach::<F>::new(tr);
         }
     }
+    // carry-targeted multiplications by a small integer x: limb i of the operand is floor((m*2^64 - 1)/x), so that the
+    // low half of limb_i * x falls within x of 2^64, and limb i-1 is all ones (its high half is x - 1): the carry into
+    // the next word -- for the top limb, into the word that is folded back -- depends on that single sum
+    {
+        let nl = F::RAW_LEN / 8;
+        let w = BigUint::from(1u32) << 64;
+        let mut m = Mach::<F>::new(tr);
+        for x in [3u32, 5, 19, 39081, 121665, 121666, 0xFFFF, 0x10001, 0x7FFFFFFF, 0xFFFFFFFF, (rng.u64() as u32) | 1, (rng.u64() as u32) | 0x8000_0001] {
+            for i in 1..nl {
+                for _rep in 0..2 {
+                    let mm = BigUint::from(1 + rng.below((x - 1).max(1) as usize) as u32);
+                    let li = ((&w * &mm) - 1u32) / x;
+                    let mut a = BigUint::from_bytes_le(&rng.bytes(F::RAW_LEN));
+                    // clear limbs i-1 and i, then set them
+                    let mask = ((&w * &w) - 1u32) << (64 * (i - 1));
+                    a = (&a | &mask) ^ &mask;
+                    a |= ((&w - 1u32) << (64 * (i - 1))) | (li << (64 * i));
+                    if !m.raw(0, &to_le(&a, F::RAW_LEN), x) { m = Mach::<F>::new(tr); continue; }
+                    if !m.mul_small(1, 0, x) { m = Mach::<F>::new(tr); }
+                }
+            }
+        }
+    }
 }
 
 // operation mixes: which calls a random program draws from
@@ -1355,6 +1378,27 @@ fn run_div<F: FieldApi>(tr: &mut Trace, rng: &mut Rng, plan: &Plan) {
             m.legendre(0);
             m.legendre(7);
             if k % 16 == 0 { ok = m.raw(1, &random_raw(rng, &q, F::RAW_LEN), v); }
+        }
+    }
+    // structured values on which the word-sized approximations of the binary GCD mislead it: +-(2^s + d), d in {-1, 1},
+    // for every s, and q - delta for delta of every bit length (Legendre symbol and 1/y only)
+    {
+        let mut zs: Vec<BigUint> = Vec::new();
+        for sft in 1..bits { for d in [0u32, 2] {
+            let v = (&one << sft) + d - 1u32;
+            if v < q { zs.push(v.clone()); zs.push(&q - &v); }
+        } }
+        let nd = if plan.gcd_sweep > 8000 { 40 } else { 6 };
+        for dl in (8..bits - 1).step_by(3) { for _ in 0..nd {
+            let delta = (BigUint::from_bytes_le(&rng.bytes(F::RAW_LEN)) % (&one << dl)) | (&one << (dl - 1));
+            if delta < q { zs.push(&q - &delta); }
+        } }
+        let mut m = Mach::<F>::new(tr);
+        let mut ok = m.cst(2, "ONE");
+        for (k, z) in zs.iter().enumerate() {
+            if !ok { m = Mach::<F>::new(tr); ok = m.cst(2, "ONE"); if !ok { break; } }
+            ok = m.raw(0, &to_le(z, F::RAW_LEN), k as u32);
+            if ok { m.legendre(0); if k % 3 == 0 { ok = m.bin("div", 4, 2, 0, k as u32); } }
         }
     }
     // GCD-length sweep: y = t*2^s for every small odd t and the top shift counts
